@@ -100,6 +100,20 @@ pub fn build(tier: Tier) -> Check<'static> {
         c.parts.push(Part::new("macro-shapes-table", sp.len(), "macro shapes: returned table", move |i, acc| pp::check_prog(acc, &sp.get(i), or, "macro shapes")));
     }
     {
+        // defines flowing out of included files (real files): define / undef / guard / nested include
+        crate::props::c10::enter_cwd("C11");
+        let all = crate::props::c10::cases(tier);
+        let idx: Vec<u64> = (0..all.len()).filter(|i| {
+            let c = all.get(*i);
+            !c.ignore && (1..=4).contains(&c.a_kind)
+        }).collect();
+        let idx = Arc::new(idx);
+        let n = idx.len() as u64;
+        c.parts.push(Part::new("include-graphs-table", n, "the C10 include layouts whose included file defines / undefines / guards / includes: returned table (and tokens) vs the reference preprocessor", move |i, acc| {
+            crate::props::c10::one(acc, &all.get(idx[i as usize]));
+        }));
+    }
+    {
         let cp = pp::cond_profile(true, false);
         let want = tier.pick(500usize, 1500usize);
         let stride = (cp.len() as usize / want).max(1) as u64;
